@@ -132,7 +132,7 @@ Section Avg.
   Definition ask (c : cfg) (s : st) (n : nat) (commit : bool) (hint : list nat) : st * out :=
     let points := ask_points s n hint in
     match n, loss_improvement c s n with
-    | 0, _ => (s, Err)
+    | 0, _ => (s, Asked [] (n_of_nat N 0))     (* ask(0) returns ([], []) (repaired in /repo; it raised ZeroDivisionError before) *)
     | _, None => (s, Err)
     | _, Some li =>
         ((if commit then fold_left tell_pending points s else s),
